@@ -117,6 +117,10 @@ class Patch(Relation):
         region = st.one_of(
             G.circle(sz, c), G.ellipse(sz, c, max_ratio=30),
             G.rectangle(sz, c, max_ratio=30),
+            # ... and anywhere (centres to 1e6 px from the plot origin)
+            G.circle(sz, 'any'), G.ellipse(sz, 'any', max_ratio=30),
+            G.rectangle(sz, 'any', max_ratio=30),
+            G.regular_polygon(sz, 'any'),
             G.polygon(sz, c, simple_only=True), G.int_polygon(),
             G.regular_polygon(sz, c),
             G.circle_annulus(sz, c),
